@@ -88,9 +88,16 @@ Z(o) == [o EXCEPT !.viol = {}]
 V(o, c, name) == IF c THEN o ELSE [o EXCEPT !.viol = @ \cup {name}]
 
 (* account management: the table changes exactly when the call reported success *)
+(* CreateReplacedExisting: a creation is not a password change - one that reports success *)
+(* for an account that exists (under whatever spelling of its name) replaced the        *)
+(* current password of that account by something no password change set.  The reference *)
+(* table still follows what the call reported, so later decisions are judged against    *)
+(* what the code says it did.                                                           *)
 ObsCreate(o, sp, pw, sch, res) ==
-  IF res = "ok" /\ Norm(sp) \in Users
-  THEN [Z(o) EXCEPT !.ref[Norm(sp)] = [pw |-> pw, sch |-> sch]] ELSE Z(o)
+  LET n  == Norm(sp)
+      o1 == V(Z(o), ~(res = "ok" /\ n \in Users /\ o.ref[n] # Absent), "CreateReplacedExisting")
+  IN IF res = "ok" /\ n \in Users
+     THEN [o1 EXCEPT !.ref[n] = [pw |-> pw, sch |-> sch]] ELSE o1
 ObsSetPw(o, sp, pw, res) ==
   IF res = "ok" /\ Norm(sp) \in Users
   THEN [Z(o) EXCEPT !.ref[Norm(sp)] = [pw |-> pw, sch |-> "bcrypt"]] ELSE Z(o)
